@@ -436,6 +436,21 @@ def call_module(it, fv, args, kwargs):
         if not is_arr(a0):
             return a0
         return npm.np_amax(ctx, a0, name, 1 if name in ('amax', 'max') else -1)
+    if name == 'array_equal':
+        a, b = args[0], args[1]
+        if not (isinstance(a, SArr) and isinstance(b, SArr) and a.ndim == 1 and b.ndim == 1):
+            raise Unsupported('np.array_equal form')
+        # a Boolean p with: p -> same length and equal everywhere ; not p -> lengths differ or a witness index
+        pb = ctx.fresh('array_equal', BoolS)
+        ga, gb = npm.fz(a), npm.fz(b)
+        same_len = scalar_cmp('==', a.n, b.n)
+        ctx.assume(z3.Implies(pb, b2z(same_len)))
+        ctx.add_universal(lambda t: z3.Implies(z3.And(pb, t >= 0, t < tz(a.n)), b2z(scalar_cmp('==', ga(t), gb(t)))))
+        k = ctx.fresh('k_diff', IntS)
+        ctx.add_iterm(k)
+        ctx.assume(z3.Implies(z3.Not(pb), z3.Or(z3.Not(b2z(same_len)),
+                                               z3.And(k >= 0, k < tz(a.n), z3.Not(b2z(scalar_cmp('==', ga(k), gb(k))))))))
+        return pb
     if name == 'bincount':
         x = a0
         w = args[1] if len(args) > 1 else kwargs.get('weights')
